@@ -265,6 +265,36 @@ example : Reachable demoProg 0 demoParked ∧ demoParked.rt = .waiting (some ⟨
 example : stopEvents demoProg (step demoProg demoParked (.act (.stepOver none))) [.wake, .run] =
     [(⟨.step, some ⟨0, 20, 25⟩, some 1, none⟩, 0)] := by decide
 
+/-- A reachable state in which the cycle thread is outside the monitor, about to call the hook of a
+statement (hypotheses of `c17_one_stop_enter`). -/
+example : (Sys.init 0 : Sys Nat Unit).rt = .idle ∧
+    demoProg.item (Sys.init 0 : Sys Nat Unit).pc = .stmt (some ⟨0, 0, 5⟩) 0 false := by decide
+
+/-- `c17_restop_only_after_resume` is not vacuous: Continue then Pause before the thread woke up
+makes it announce a second stop at the same statement — and it had been notified. -/
+example :
+    (step demoProg (exec demoProg demoParked [.act .continue_, .act (.pause none)]) .wake).d.stops.length = 2 ∧
+    (exec demoProg demoParked [.act .continue_, .act (.pause none)]).notified = true ∧
+    (exec demoProg demoParked [.act .continue_, .act (.pause none)]).rt = .waiting (some ⟨0, 10, 15⟩) := by
+  decide
+
+/-- `c17_step_in_next` on the concrete run: StepIn from statement 1 stops at statement 2. -/
+example :
+    (step demoProg (step demoProg (step demoProg demoParked (.act (.stepIn none))) .wake) .run).rt
+      = .waiting (some ⟨0, 20, 25⟩) ∧ demoProg.item (demoParked.pc + 1) = .stmt (some ⟨0, 20, 25⟩) 0 false := by
+  decide
+
+/-- `c17_transparent` on a concrete interleaving with a pause, a step and a breakpoint edit: three
+statements were executed and the program state says so. -/
+example :
+    (exec demoProg (Sys.init 0)
+      [.run, .act (.pause none), .run, .setBps 0 [demoBp], .act (.stepOver none), .wake, .run,
+       .act .continue_, .wake, .run]).mem = 4 ∧
+    (exec demoProg (Sys.init 0)
+      [.run, .act (.pause none), .run, .setBps 0 [demoBp], .act (.stepOver none), .wake, .run,
+       .act .continue_, .wake, .run]).pc = 4 := by
+  decide
+
 /-! ## Second layer: the DAP adapter's stop filter (`trust-debug/src/adapter/stop.rs`)
 
 Claim examined: "every runtime stop is either emitted to the client or followed by a resume".
